@@ -25,6 +25,12 @@ WideIndex(h, x, y) == LET bpc == BytesPerColumn(h)
                           raw == (x % 65536) * bpc + HeaderLen + y \div 8
                       IN <<(x \div 65536) * bpc + raw \div 65536, raw % 65536>>
 
+\* Heights beyond TLC's integers (up to 2^32 - 1) are given as hq = h \div 8 and hr = h % 8, rows likewise as yq = y \div 8.
+TallBPC(hq, hr) == hq + (IF hr > 0 THEN 1 ELSE 0)
+TallChunks(w, hq, hr) == LET bpc == TallBPC(hq, hr) IN w * (bpc \div 16) + (w * (bpc % 16) + HeaderLen + 15) \div 16
+TallDataEnd(w, hq, hr) == LET raw == w * TallBPC(hq, hr) + HeaderLen IN <<raw \div 65536, raw % 65536>>     \* w <= 3
+TallIndex(hq, hr, x, yq) == LET raw == x * TallBPC(hq, hr) + HeaderLen + yq IN <<raw \div 65536, raw % 65536>>  \* x <= 2
+
 MkPage(w, h, bytes) == [w |-> w, h |-> h, bytes |-> bytes]
 
 NewBytes(id, w, h) ==
